@@ -18,7 +18,7 @@ import random
 from datetime import date, datetime, timedelta
 from zoneinfo import ZoneInfo, available_timezones
 
-from vf.core import Ctx, cfg_text, main_wrapper, Machinery
+from vf.core import Ctx, cfg_text, main_wrapper, Machinery, time_limit, HardTimeout
 from icalendar import Timezone
 from icalendar.timezone import tzp
 
@@ -114,7 +114,11 @@ def run(ctx: Ctx):
                         continue
                     case = {"tzid": tzid, "provider": prov, "window": [str(f), str(l)]}
                     try:
-                        comp = Timezone.from_tzid(tzid, tzp, f, l)
+                        with time_limit(30):
+                            comp = Timezone.from_tzid(tzid, tzp, f, l)
+                    except HardTimeout:
+                        ctx.fail("P:C13:generation-total", {**case, "exc": "no result within 30 s"}, "timeout", None)
+                        continue
                     except Exception as e:   # noqa: BLE001
                         ctx.fail("P:C13:generation-total", {**case, "exc": type(e).__name__}, str(e)[:200], None)
                         continue
